@@ -6,7 +6,7 @@ Hypothesis generates N-thread workloads + a schedule seed; every case is ONE fre
  (2) no crash / sanitizer abort, (3) every thread's per-item results equal the single-threaded re-run of the same
  lists in the same process, (4) a watchdog hit is replayed 3x: hang 3/3 = violation, otherwise inconclusive.
 """
-import os, sys, json, re, subprocess, tempfile, atexit, shutil
+import os, sys, json, re, subprocess, tempfile, atexit, shutil, time
 from hypothesis import strategies as st
 import xv
 from driver import hyp_run, PropertyFailure
@@ -27,7 +27,7 @@ ASSUMPTIONS = ['ThreadSanitizer (happens-before, clang 14) sees only instrumente
                'a data-race report / digest mismatch / crash observed once is evidence (replay = up to 6 attempts); only hangs need 3/3',
                'known findings are stepped over by a main-thread warm-up of exactly the racy facility (counted in excluded_known)']
 BUDGET = {'quick': 40, 'thorough': 600}
-WALLCAP = {'quick': 900, 'thorough': 4500}
+WALLCAP = {'quick': 1800, 'thorough': 5400}
 
 # ---------------------------------------------------------------------------------------------------------------
 # Known findings (genuine races on the unchanged tree).  id -> (signature predicate on a parsed TSan report,
@@ -98,7 +98,7 @@ CATS = ['L', 'Lu', 'Ll', 'Lo', 'M', 'N', 'Nd', 'P', 'Pd', 'S', 'Sm', 'Z', 'Zs', 
         'ALL', 'IsAlpha', 'IsAlnum', 'ASSIGNED', 'IsWord', 'IsSpace', 'ascii:isAscii', 'ascii:isDigit', 'ascii:isWord', 'ascii:isSpace', 'ascii:isXDigit']
 
 TSAN_BASE = 'second_deadlock_stack=1 exitcode=66 history_size=3 report_signal_unsafe=0 external_symbolizer_path=/usr/bin/llvm-symbolizer'
-WATCHDOG_S = 90
+WATCHDOG_S = 240
 
 _TMP = None
 def _tmpdir():
@@ -227,6 +227,13 @@ def classify_report(rep):
 # ---------------------------------------------------------------------------------------------------------------
 # running one case
 # ---------------------------------------------------------------------------------------------------------------
+def _cpu_ticks(pid):
+    try:
+        f = open('/proc/%d/stat' % pid).read().rsplit(')', 1)[1].split()
+        return int(f[11]) + int(f[12])       # utime + stime of the whole process (all threads), clock ticks
+    except Exception:
+        return None
+
 def run_once(case, halt=True):
     """-> dict(status='ok'|'fail'|'hang', detail, summary, known=[ids], ignored=int)"""
     flavour = case.get('flavour', 'tsan')
@@ -241,12 +248,19 @@ def run_once(case, halt=True):
     env['LC_ALL'] = 'C.UTF-8'
     data = case_bytes(case)
     with tempfile.TemporaryFile(dir=_tmpdir()) as ef:
+        p = subprocess.Popen([path], stdin=subprocess.PIPE, stdout=subprocess.PIPE, stderr=ef, env=env)
         try:
-            p = subprocess.run([path], input=data, stdout=subprocess.PIPE, stderr=ef, env=env, timeout=WATCHDOG_S)
+            so, _ = p.communicate(data, timeout=WATCHDOG_S)
         except subprocess.TimeoutExpired:
-            return dict(status='hang', detail='watchdog: no result within %d s' % WATCHDOG_S, summary=None, known=[], ignored=0)
+            # deterministic progress counter: a deadlocked process burns no CPU; a merely slow one (loaded machine) does
+            c1 = _cpu_ticks(p.pid); time.sleep(3); c2 = _cpu_ticks(p.pid)
+            p.kill(); p.communicate()
+            busy = c1 is not None and c2 is not None and c2 - c1 >= 5
+            return dict(status='slow' if busy else 'hang', detail='watchdog: no result within %d s (%s)' % (WATCHDOG_S, 'still consuming CPU' if busy else 'idle'),
+                        summary=None, known=[], ignored=0)
         ef.seek(0); err = ef.read().decode('utf-8', 'replace')
-    out = p.stdout.decode('utf-8', 'replace')
+    class _P: pass
+    out = so.decode('utf-8', 'replace'); rcode = p.returncode; p = _P(); p.returncode = rcode
     summary = None
     for line in out.split('\n'):
         if line.startswith('XVTHR '):
@@ -288,6 +302,8 @@ def run_case(case, attempts=1):
     last = None
     for a in range(attempts):
         r = run_once(case, halt)
+        if r['status'] == 'slow':
+            r['status'] = 'inconclusive'; return r
         if r['status'] == 'hang':
             hangs = 1
             for _ in range(2):
@@ -430,7 +446,7 @@ def xcode_item(draw):
     return {'k': 'xcode', 'enc': draw(st.sampled_from(ENCS)), 'text': text * (40 if big else 1), 'reps': draw(st.sampled_from([1, 1, 3, 20]))}
 
 life_item = st.builds(lambda seq, lifo: {'k': 'life', 'seq': seq, 'lifo': int(lifo)},
-                      st.lists(st.sampled_from(['s1', 's2', 'd', 'dw', 'ds', 'l', 'w']), min_size=1, max_size=6), st.booleans())
+                      st.lists(st.sampled_from(['s1', 's2', 'd', 'dw', 'ds', 'l', 'w', 'src']), min_size=1, max_size=6), st.booleans())
 msg_item = st.builds(lambda w: {'k': 'msg', 'which': w}, st.lists(st.integers(0, 7), min_size=1, max_size=4))
 
 def item_strategy(pool):
@@ -505,6 +521,8 @@ def worker(ctx):
                 st_.excluded_known[kid] += 1
         if r['status'] == 'inconclusive':
             st_.inconclusive += 1; return
+        if r['status'] == 'fail' and r['detail'].startswith('case hangs 3/3'):
+            st_.failures.append({'case': case, 'detail': r['detail']}); return
         if r['status'] == 'fail':
             _failed_cache[h] = r['detail']
             return fail(case, r['detail'])
